@@ -427,6 +427,14 @@ func (d *dnsServer) parseQuery(m *dns.Msg, w dns.ResponseWriter) {
 					m.Answer = append(m.Answer, rr)
 				}
 			}
+			if _, nameExists := d.Query(q.Qtype, q.Name); nameExists {
+				anyNameExists = true
+			}
+		default:
+			// We hold no records of any other type, a name we know is still NODATA rather than NXDOMAIN
+			if _, nameExists := d.Query(q.Qtype, q.Name); nameExists {
+				anyNameExists = true
+			}
 		}
 	}
 
